@@ -10,9 +10,17 @@ PROPS = "props/C12.v"
 class C12Stream(G.TreeStream):
     def oracle(self, case, obs):
         roots = case["roots"]
-        out = G.judge(case, obs)                      # the seven totals + the balance, for all power assignments
+        out = G.judge(case, obs)                      # the totals + the balance, for all power assignments
         if not G.wf_tree(roots):
             return out
+        out += G.judge_sources(case, obs)             # which streams are read (dedicated meters offset)
+        # generating the same formulas again on the same graph object must give the same formulas
+        for name, f2 in sorted(obs.get("_again", {}).items()):
+            o2 = {**obs, name: f2}
+            why = [v["what"] for v in G.judge(case, o2) + G.judge_sources(case, o2) if v["what"].startswith(name + ":")]
+            out.append({"what": f"{name}: generated a second time on the same graph object it is a different formula"
+                                + (f" - and a wrong one: {why[0][len(name) + 2:]}" if why else
+                                   f": first {self._brief(obs[name])}, then {self._brief(f2)}"), "finding": None})
         # the number the real steps compute on this power assignment
         t = G.totals(roots)
         want = {"grid": t["load"] + t["P"] + t["C"] + t["B"] + t["E"], "consumer": t["load"], "producer": t["P"] + t["C"],
@@ -20,6 +28,8 @@ class C12Stream(G.TreeStream):
         bids, psel = G.sel_of(case)
         want["batsub"] = sum(n["p"] for n in G.pool_inverters(roots, bids)[0])
         want["pvsub"] = sum(n["p"] for n in G.walk(roots) if n["k"] == "P" and (n["id"] in psel or not psel))
+        esel = G.esel_of(case)
+        want["evsub"] = sum(n["p"] for n in G.walk(roots) if n["k"] == "E" and n["id"] in esel)
         for name in G.FORMULAS:
             f = obs[name]
             if "error" not in f and f["value"] != want[name]:
@@ -48,6 +58,16 @@ class C12RefreshStream(G.RefreshStream):
                 where = "freshly built graph" if i == 0 else f"same graph object after refresh_from #{i}"
                 out.append({"what": f"{name}: [topology {i + 1} of {n}, {where}]{rest}", "finding": v["finding"]})
         return out
+
+
+def _brief(f):
+    if "error" in f:
+        return f["error"]
+    return " ".join(f"{'+' if t['c'] > 0 else '-'}#{t['id']}" + (f"(fallback {[i for i, _ in t['fb']['terms']]})" if t["fb"] else "")
+                    for t in f["terms"]) or "0"
+
+
+C12Stream._brief = staticmethod(_brief)
 
 
 def streams():
